@@ -135,6 +135,12 @@ struct Dumper
         }
         auto k = e.get_kind();
         os << "(" << (int)k;
+        // the type annotation of the node (set by the builder, refined by the type checker): kind only, the full type of
+        // symbols is printed where the symbol is
+        {
+            auto ty = e.get_type();
+            os << ":" << (ty == type_t{} ? 0 : (int)ty.get_kind());
+        }
         if (root)
             os << pos(e.get_position());
         switch (k) {
